@@ -32,7 +32,15 @@ def compare_observation(ctx, obs, exp_steps, wit, joint=False, agents=None):
         for which, got_o, exp_o in (("pre", c.previous_state, pre_o), ("post", c.next_state, post_o)):
             ctx.count("compared:state")
             got, exp = lib.read_state(got_o), lib.read_state(exp_o)
-            d = probe.state_diff(exp, got)
+            d = probe.state_diff(exp, got, exact=True)
+            # the fluent *values* held by the two state objects (the serialised text goes through the code under test on
+            # both sides, so a lossy number format would cancel out)
+            ve = {k: float(f.value) for k, f in exp_o.state_fluents.items()}
+            vg = {k: float(f.value) for k, f in got_o.state_fluents.items()}
+            if not d and set(ve) == set(vg):
+                bad = {k: (repr(ve[k]), repr(vg[k])) for k in ve if ve[k] != vg[k]}
+                if bad:
+                    d = {"fluent_values (exported, parsed back)": bad}
             try:
                 eq = (got_o == exp_o)
             except BaseException as e:
@@ -70,7 +78,8 @@ def single_agent_cases(ctx, rng, thorough):
     from pddl_plus_parser.exporters import TrajectoryExporter
     n_worlds = 30 if thorough else 3
     for wi in range(n_worlds):
-        w = gen.gen_plan_world(rng, max_arity=3 if rng.random() < 0.4 else 2)
+        awk_world = rng.random() < 0.4  # fluents with awkward values that no action reads or writes (float arithmetic is not C10's business)
+        w = gen.gen_plan_world(rng, max_arity=3 if rng.random() < 0.4 else 2, numeric_actions=not awk_world)
         if not w.actions:
             continue
         dtext = w.domain_text()
@@ -89,6 +98,18 @@ def single_agent_cases(ctx, rng, thorough):
             if rng.random() < 0.15:
                 st0 = (frozenset(), {})
             st0 = gen.drop_colliding_fluents(st0)
+            if awk_world and st0[1]:
+                # values that are awkward to print: tiny, huge, long fractions, negative zero-ish
+                from fractions import Fraction as F
+                awkward = ["1e-05", "6.666666666666667e-05", "2.5e-11", "-3.3e-07", "123456789.125", "1e+16", "0.30000000000000004",
+                           "-0.0001220703125", "5e-324", "0.1", "-1234.5678901234567"]
+                fl2 = dict(st0[1])
+                for k in rng.sample(sorted(fl2), min(len(fl2), 3)):
+                    fl2[k] = F(float(rng.choice(awkward)))
+                st0 = (st0[0], fl2)
+                awk = True
+            else:
+                awk = False
             ptext = sx.plain(w.problem_ast(st0, rng=rng))
             try:
                 prob = lib.parse_problem_text(ptext, dom)
